@@ -2,7 +2,7 @@
     under the case's schedule and the synchronous reference, apply the oracle to what the
     implementation did, compare.  Executable only (extracted / vm_compute). *)
 From Coq Require Import List NArith ZArith Bool String.
-From ApiFu Require Import Base.Sexp Fut.Plan Fut.Future Fut.ExecAsync Fut.ExecSync Fut.FutSpec.
+From ApiFu Require Import Base.Sexp Fut.Plan Fut.Future Fut.ExecAsync Fut.ExecSync Fut.FutSpec Fut.NoIdle.
 Import ListNotations.
 Open Scope string_scope.
 
@@ -169,7 +169,7 @@ Definition dec_mode (s : sexp) : option mode :=
   if is_sym "query" s then Some Query else if is_sym "mutation" s then Some Mutation else None.
 
 Record tcase := { c_mode : mode; c_plan : selset; c_ranks : list nat; c_pre : list bool;
-                  c_feat : list string; c_obs : obs }.
+                  c_feat : list string; c_noidle : bool; c_obs : obs }.
 
 Definition dec_case (c : sexp) : option tcase :=
   match tagged "case" c with
@@ -180,7 +180,9 @@ Definition dec_case (c : sexp) : option tcase :=
                 (match field1 "pre" l with Some x => as_list_of as_bool x | None => Some [] end),
                 (match field "feat" l with Some x => map_opt as_sym x | None => Some [] end) with
           | Some mm, Some pp, Some rr, Some oo, Some pre, Some ft =>
-              Some {| c_mode := mm; c_plan := pp; c_ranks := rr; c_pre := pre; c_feat := ft; c_obs := oo |}
+              Some {| c_mode := mm; c_plan := pp; c_ranks := rr; c_pre := pre; c_feat := ft;
+                      c_noidle := match field1 "noidle" l with Some x => is_sym "true" x | None => false end;
+                      c_obs := oo |}
           | _, _, _, _, _, _ => None
           end
       | _, _, _, _ => None
@@ -376,7 +378,34 @@ Fixpoint vsize (v : vplan) : nat :=
   | _ => 1
   end.
 
+(** a request WITHOUT an idle handler (executor.go wait(): "No idle handler defined."): the model is
+    [NoIdle.run_nil]; the C02 oracle does not apply (the premise "every round fulfils a promise"
+    is void), what is demanded instead: no crash, no hang, no idle round, and null data only with
+    an error *)
+Definition check_noidle (c : tcase) : sexp :=
+  let root := c_plan c in
+  let o := c_obs c in
+  if negb (String.eqb (o_status o) "ok") then v_oracle_fail (o_status o) []
+  else if negb (Nat.eqb (o_rounds o) 0) then v_oracle_fail "idle-round-without-handler" []
+  else if match o_data o, o_errors o with None, [] => true | _, _ => false end
+       then v_oracle_fail "null-data-without-error" []
+  else
+    match run_nil fixed_flags (c_mode c) (S (S (vsize (VObj root)))) root with
+    | Done r =>
+        if negb (data_eqb (r_data r) (o_data o)) then v_mismatch "data" []
+        else if negb (paths_perm (map e_path (r_errors r)) (map fst (o_errors o))) then
+               v_mismatch "errors" [of_list of_path (map e_path (r_errors r))]
+        else if negb (Nat.eqb (r_promises r) (o_promises o)) then v_mismatch "promises" [of_nat (r_promises r)]
+        else if negb (events_eqb (r_events r) (o_events o)) then v_mismatch "events" []
+        else v_ok ("no-idle-handler" ::
+                   (if existsb (fun e => match e_path e with [] => true | _ => false end) (r_errors r)
+                    then ["no-idle-handler-error"; "nontrivial"] else ["no-idle-handler-not-needed"]) ++ c_feat c)
+    | Stuck => v_mismatch "model-stuck" []
+    | OutOfFuel => v_mismatch "model-out-of-fuel" []
+    end.
+
 Definition check_case (c : tcase) : sexp :=
+  if c_noidle c then check_noidle c else
   let root := c_plan c in
   let o := c_obs c in
   match oracle root o with
